@@ -137,6 +137,21 @@ Definition iface_corr (m : iface) (o : iobs) : bool :=
   let '(op, om, oc) := o in
   res_set_eqb String.eqb (if_params m) op && res_set_eqb String.eqb (if_mnames m) om && res_set_eqb chan_eqb (if_chans m) oc.
 
+(* Error PRECEDENCE is outside the model: the transaction guard (Tx.v) is evaluated in front of the encoding, the code meets
+   the second object of an identifier and a dict with mixed int / str keys (TypeError of json.dumps) in document order.  When the
+   tree of one operation has BOTH defects, both sides must fail, with either of the two error kinds (found by the thorough
+   tier in round 5: clash + mixed keys, code TypeError, model RuntimeError).  Nothing else is relaxed. *)
+Definition both_defects (p : pt) : bool := negb (ids_consistent [p]) && negb (forallb node_encodable (nodes p)).
+Definition rt_or_type (r : sres) : bool := match r with SErrRuntime | SErrType => true | _ => false end.
+Definition sres_corr (p : option pt) (m i : sres) : bool :=
+  sres_eqb m i || match p with Some p => both_defects p && rt_or_type m && rt_or_type i | None => false end.
+Fixpoint res_corr (ps : list (option pt)) (m i : list sres) : bool :=
+  match ps, m, i with
+  | [], [], [] => true
+  | p :: ps, x :: m, y :: i => sres_corr p x y && res_corr ps m i
+  | _, _, _ => false
+  end.
+
 Definition check_corr (c : case) : bool :=
   match c with
   | CStore roots ops impl_res impl_be impl_loads vt impl_iface =>
@@ -147,7 +162,7 @@ Definition check_corr (c : case) : bool :=
       | None => false
       | Some mops =>
       let '(h, res) := hrun_tx (empty_h []) mops in
-      list_eqb sres_eqb (map sres_of res) impl_res
+      res_corr (map (fun op => Some (snd op)) mops) (map sres_of res) impl_res
       && be_eqb (hbe h) impl_be
       && forallb (fun il => match nth_error roots (fst il) with
                             | Some p => lobs_corr (model_load (hbe h) p) (snd il)
@@ -167,7 +182,7 @@ Definition check_corr (c : case) : bool :=
       end
   | CHist ops impl_res impl_be finals impl_loads =>
       let '(h, res) := hrun2_tx (empty_h []) ops in
-      list_eqb sres_eqb (map sres_of res) impl_res
+      res_corr (map hop_pt ops) (map sres_of res) impl_res
       && be_eqb (hbe h) impl_be
       && forallb (fun il => match nth_error finals (fst il) with
                             | Some (k, p, cmp) =>
